@@ -140,7 +140,8 @@ class Lexer:
                             hex_chars += self._advance()
                     try:
                         result.append(chr(int(hex_chars, 16)))
-                    except ValueError:
+                    except (ValueError, OverflowError):
+                        # not hex digits, or a code point beyond U+10FFFF
                         raise JSSyntaxError(
                             f"Invalid unicode escape: \\u{hex_chars}",
                             self.line,
@@ -236,6 +237,10 @@ class Lexer:
 
         num_str = self.source[start : self.pos]
         if is_float:
+            return float(num_str)
+        if len(num_str) > 400:
+            # far beyond the double range anyway (and Python's int() refuses
+            # digit strings longer than 4300 characters)
             return float(num_str)
         return _as_double(int(num_str))
 
